@@ -79,6 +79,13 @@ class Check:
     def same_failure(self, a, b) -> bool:
         return a.get("sig") == b.get("sig")
 
+    reps_per_class = 3
+    minimise_budget = 300
+
+    def sig_class(self, sig) -> str:
+        """Coarse class used to group violating runs before minimisation."""
+        return sig
+
 
 def shrink_events(case, key="events"):
     ev = case.get(key) or []
@@ -344,35 +351,46 @@ def run_check(chk: Check, tier: str, seed: int, workers: int, runs=None, wall=No
         print(f"[{chk.id}] HARNESS-ERROR: no run completed")
         return 2
 
-    # triage: group by signature, known findings first
-    by_sig = {}
+    # triage: group by signature class; known findings are matched on the exact (minimised) signature
+    by_cls = {}
     for v in total["violations"]:
-        by_sig.setdefault(v["sig"], []).append(v)
+        by_cls.setdefault(chk.sig_class(v["sig"]), []).append(v)
     known_hits, new_paths, harness_bad = {}, [], False
-    for sig, vs in sorted(by_sig.items()):
-        e = match_known(known, sig)
-        if e is not None:
-            known_hits[sig] = len(vs)
-            continue
-        v = vs[0]
-        out = chk.run(v["case"])
-        if out["verdict"] != VIOLATION or out["sig"] != sig:
-            print(f"[{chk.id}] HARNESS-ERROR: run {v['run']} did not reproduce in the parent "
-                  f"(got {out['verdict']} {out.get('sig')}, expected {sig})")
-            harness_bad = True
-            continue
-        mcase, mout, spent = minimise(chk, v["case"], out)
-        e = match_known(known, mout["sig"])
-        if e is not None:  # cannot happen while same_failure compares signatures, kept for safety
-            known_hits[sig] = len(vs)
-            continue
-        path = write_replay(chk, seed, v["run"], mcase, mout)
-        ok, res = fresh_replay(path, mout["sig"])
-        if not ok:
-            print(f"[{chk.id}] HARNESS-ERROR: minimised replay {path} did not reproduce in a fresh interpreter: {res}")
-            harness_bad = True
-            continue
-        new_paths.append((sig, path, mout, spent, len(vs)))
+    seen_min = set()
+    for cls, vs in sorted(by_cls.items()):
+        reps, seen_raw = [], set()
+        for v in vs:  # smallest cases first; up to REPS distinct raw signatures per class
+            if v["sig"] not in seen_raw:
+                seen_raw.add(v["sig"])
+                reps.append(v)
+            if len(reps) >= chk.reps_per_class:
+                break
+        for v in reps:
+            e = match_known(known, v["sig"])
+            if e is not None:
+                known_hits[e["signature"]] = known_hits.get(e["signature"], 0) + sum(1 for x in vs if x["sig"] == v["sig"])
+                continue
+            out = chk.run(v["case"])
+            if out["verdict"] != VIOLATION or out["sig"] != v["sig"]:
+                print(f"[{chk.id}] HARNESS-ERROR: run {v['run']} did not reproduce in the parent "
+                      f"(got {out['verdict']} {out.get('sig')}, expected {v['sig']})")
+                harness_bad = True
+                continue
+            mcase, mout, spent = minimise(chk, v["case"], out, budget=chk.minimise_budget)
+            if mout["sig"] in seen_min:
+                continue
+            seen_min.add(mout["sig"])
+            e = match_known(known, mout["sig"])
+            if e is not None:
+                known_hits[e["signature"]] = known_hits.get(e["signature"], 0) + 1
+                continue
+            path = write_replay(chk, seed, v["run"], mcase, mout)
+            ok, res = fresh_replay(path, mout["sig"])
+            if not ok:
+                print(f"[{chk.id}] HARNESS-ERROR: minimised replay {path} did not reproduce in a fresh interpreter: {res}")
+                harness_bad = True
+                continue
+            new_paths.append((mout["sig"], path, mout, spent, len(vs)))
 
     for e in known:
         if e["signature"] in known_hits:
